@@ -60,7 +60,7 @@ def classify_panic(case, obs, known):
 
 
 def correspond(ctx, C):
-    n = 2500 if ctx.tier == "quick" else 150000
+    n = 8000 if ctx.tier == "quick" else 150000
     if ctx.search:
         n *= 3
     known = S.known_for(C, "C06")
